@@ -17,12 +17,13 @@ CONSTANTS Flavour,       \* "base" | "allowlist" | "blocklist" | "pausable" | "c
           MinTempTtl, MaxTtl, Now0, Depth,
           EmitEvery,     \* 0: emit nothing; k: emit about one REPLAY line per k transitions
           ThinBlock,     \* TRUE: the blocklist flavour is the thin BlockList + burnable contract (burns exposed)
+          CapAmts,       \* caps tried by set_cap (thin capped flavour)
           WithNeg,       \* TRUE: also try -1 for amounts and lifetimes (cfg files cannot write -1)
           BUG            \* "" or the name of a seeded model bug (non-vacuity configurations)
 
-VARIABLES bal, supply, al, paused, listed, now, g, viol, hist
-vars == <<bal, supply, al, paused, listed, now, g, viol, hist>>
-View == <<bal, supply, al, paused, listed, now, g, viol, Len(hist)>>
+VARIABLES bal, supply, al, paused, listed, cap, now, g, viol, hist
+vars == <<bal, supply, al, paused, listed, cap, now, g, viol, hist>>
+View == <<bal, supply, al, paused, listed, cap, now, g, viol, Len(hist)>>
 
 Neg == IF WithNeg THEN {-1} ELSE {}
 AmtsN == Amts \cup Neg
@@ -30,7 +31,7 @@ MintN == MintAmts \cup Neg
 ApprN == ApprAmts \cup Neg
 DUsN == DUs \cup Neg
 
-NoBurn == IF ThinBlock THEN {"capped"} ELSE {"blocklist", "capped"}   \* flavours exposing no burn entry point
+NoBurn == IF ThinBlock THEN {} ELSE {"blocklist", "capped"}   \* flavours exposing no burn entry point
 
 Acct == {"a", "b", "c"}
 Owner == "a"             \* pausable: owner;  lists: admin (initially allowed)
@@ -107,10 +108,13 @@ ImplOk(o, t) ==
     [] o.op = "mint" ->
          /\ Flavour \in {"base", "pausable", "capped"} /\ GateOk(o)
          /\ (Flavour = "pausable" => Owner \in o.auth)
-         /\ (Flavour = "capped" => (supply + o.amt <= MAXI /\ (BUG = "cap_off_by_one" \/ supply + o.amt <= Cap)
-                                    /\ (BUG = "cap_off_by_one" => supply + o.amt <= Cap + 1)))
+         /\ (Flavour = "capped" => (supply + o.amt <= MAXI /\ (BUG \in {"cap_off_by_one", "cap_headroom"} \/ supply + o.amt <= cap)
+                                    /\ (BUG = "cap_off_by_one" => supply + o.amt <= cap + 1)
+                                    \* the distance to the cap taken for headroom on either side of it
+                                    /\ (BUG = "cap_headroom" => o.amt <= (IF cap >= supply THEN cap - supply ELSE supply - cap))))
          /\ UpdOk(None, o.to, o.amt)
     [] o.op = "advance" -> TRUE
+    [] o.op = "set_cap" -> Flavour = "capped" /\ ThinBlock /\ o.amt >= 0
     [] o.op = "pause"   -> Flavour = "pausable" /\ o.from \in o.auth /\ o.from = Owner /\ ~paused
     [] o.op = "unpause" -> Flavour = "pausable" /\ o.from \in o.auth /\ o.from = Owner /\ paused
     [] o.op \in {"list", "unlist"} ->
@@ -129,7 +133,7 @@ ImplEffect(o, t) ==
          /\ al' = [al EXCEPT ![o.from][o.sp] = Spend(o.from, o.sp, o.amt, t)[2]]
          /\ Upd(o.from, None, o.amt) /\ UNCHANGED <<paused, listed>>
     [] o.op = "mint" -> Upd(None, o.to, o.amt) /\ UNCHANGED <<al, paused, listed>>
-    [] o.op = "advance" -> UNCHANGED <<bal, supply, al, paused, listed>>
+    [] o.op \in {"advance", "set_cap"} -> UNCHANGED <<bal, supply, al, paused, listed>>
     [] o.op = "pause"   -> paused' = TRUE /\ UNCHANGED <<bal, supply, al, listed>>
     [] o.op = "unpause" -> paused' = FALSE /\ UNCHANGED <<bal, supply, al, listed>>
     [] o.op = "list"    -> listed' = [listed EXCEPT ![o.to] = TRUE] /\ UNCHANGED <<bal, supply, al, paused>>
@@ -156,6 +160,7 @@ Ops(t) ==
           {Op("mint", None, x, None, m, 0, au, 0) : x \in {"a", "b"}, m \in MintN, au \in {{}, {Owner}}}
         ELSE {})
   \cup {Op("advance", None, None, None, 0, 0, {}, k) : k \in {1, 2}}
+  \cup (IF Flavour = "capped" /\ ThinBlock THEN {Op("set_cap", None, None, None, m, 0, {}, 0) : m \in CapAmts \cup Neg} ELSE {})
   \cup (IF Flavour = "pausable" THEN
           {Op(p, c, None, None, 0, 0, IF w THEN {c} ELSE {}, 0) : p \in {"pause", "unpause"}, c \in {Owner, "b"}, w \in BOOLEAN}
         ELSE {})
@@ -179,7 +184,7 @@ Supply0 == IF Flavour \in {"allowlist", "blocklist"} THEN 2 ELSE 0
 Init ==
   /\ bal = Bal0 /\ supply = Supply0
   /\ al = [o \in Acct |-> [s \in Acct |-> Absent]]
-  /\ paused = FALSE /\ listed = Listed0 /\ now = Now0
+  /\ paused = FALSE /\ listed = Listed0 /\ now = Now0 /\ cap = Cap
   /\ g = GInit(Flavour, ObsOf(bal, supply, al, paused, listed, now), Cap, Owner)
   /\ viol = {} /\ hist = <<>>
 
@@ -192,6 +197,7 @@ Step(o) ==
                      ELSE IF ok /\ o.op \notin Burns THEN ExpEvents(o) ELSE << >>]
   IN /\ now' = t
      /\ IF ok THEN ImplEffect(o, t) ELSE UNCHANGED <<bal, supply, al, paused, listed>>
+     /\ cap' = IF ok /\ o.op = "set_cap" THEN o.amt ELSE cap
      /\ g' = GSync(GNext(g, ev), ev)
      /\ viol' = viol \cup {<<m, Key(m, g, ev)>> : m \in Failing(g, ev)}
      /\ hist' = Append(hist, o @@ [exp |-> ev.res])
@@ -206,7 +212,7 @@ EmitReplay == (EmitEvery > 0 /\ RandomElement(1..EmitEvery) = 1) => PrintT(<<"RE
 NoViolation == viol = {}
 
 \* the implementation-shaped state is the ghost state
-Refines == /\ g.bal = bal /\ g.supply = supply /\ g.paused = paused /\ g.listed = listed
+Refines == /\ g.bal = bal /\ g.supply = supply /\ g.paused = paused /\ g.listed = listed /\ g.cap = cap
            /\ \A o \in Acct : \A s \in Acct :
                 AllowVal(g, o, s, now) = ObsOf(bal, supply, al, paused, listed, now).al[o][s]
            \* an allowance entry outlives its explicit expiry while it is worth something
